@@ -416,7 +416,7 @@ def run(ctx):
     ctx.note("exhaustive_subfamily_complete", True)
     # (b) random histories under the icontract class invariant
     monitors.install_continuum_invariant("M-INV")
-    n_hist = ctx.scale(250, 4000)
+    n_hist = ctx.scale(250, 12000)
     for _ in range(n_hist):
         if ctx.out_of_time():
             break
